@@ -356,7 +356,11 @@ func (g *Gen) oneOp(c, k string) (purged bool) {
 		l.add("exp", u(g.exp()))
 	case 6:
 		l.Op = "incr"
-		l.add("amt", u(uint64(g.r.intn(10))))
+		amt := uint64(g.r.intn(10))
+		if g.r.chance(25) {
+			amt = 0 // Incr by 0 is used as a read - it still writes (new CAS, event) when the counter exists
+		}
+		l.add("amt", u(amt))
 		l.add("def", u(uint64(g.r.intn(100))))
 		l.add("exp", u(g.exp()))
 	case 7:
@@ -760,7 +764,11 @@ func (g *Gen) queryProgram(n int) {
 		if g.r.chance(45) {
 			qc := pick(g.r, g.colls)
 			q := 1 + g.r.intn(6)
-			res := g.emit(Line{Op: "query", Pos: []string{qc}, Args: [][2]string{{"q", fmt.Sprint(q)}}})
+			ql := Line{Op: "query", Pos: []string{qc}, Args: [][2]string{{"q", fmt.Sprint(q)}}}
+			if g.r.chance(40) {
+				ql.add("adhoc", "0") // prepared-statement path: the same text is run on several collections
+			}
+			res := g.emit(ql)
 			g.stats["op:query"]++
 			nrows := "0"
 			for _, t := range strings.Split(res, " ") {
@@ -773,7 +781,7 @@ func (g *Gen) queryProgram(n int) {
 	}
 	for _, c := range g.colls {
 		for q := 1; q <= 6; q++ {
-			g.emit(Line{Op: "query", Pos: []string{c}, Args: [][2]string{{"q", fmt.Sprint(q)}}})
+			g.emit(Line{Op: "query", Pos: []string{c}, Args: [][2]string{{"q", fmt.Sprint(q)}, {"adhoc", "0"}}})
 		}
 	}
 }
@@ -890,9 +898,18 @@ func (g *Gen) viewProgram(n int, withMeta bool) {
 			l.add("v."+name, fmt.Sprintf("%d:%s", m, red))
 			views = append(views, genView{c, dd, name, m, red})
 		}
+		if g.r.chance(30) {
+			l.add("via", "h1")
+		}
 		g.emit(l)
 		g.stats["op:putddoc"]++
 	}
+	second := func() {
+		g.emit(Line{Op: "hopen", Pos: []string{"h1"}})
+		g.emit(Line{Op: "mkcoll", Pos: []string{"c0"}, Args: [][2]string{{"via", "h1"}}})
+		g.emit(Line{Op: "mkcoll", Pos: []string{"c1"}, Args: [][2]string{{"via", "h1"}}})
+	}
+	second()
 	putDDoc("c0", "dd0")
 	for i := 0; i < n; i++ {
 		g.tick()
@@ -926,6 +943,9 @@ func (g *Gen) viewProgram(n int, withMeta bool) {
 			}
 			v := pick(g.r, views)
 			l := Line{Op: "view", Pos: []string{v.coll, v.dd, v.name}}
+			if g.r.chance(35) {
+				l.add("via", "h1")
+			}
 			cls := g.viewParams(&l, v.mapID, v.reduce)
 			res := g.emit(l)
 			g.stats["op:view"]++
@@ -943,6 +963,7 @@ func (g *Gen) viewProgram(n int, withMeta bool) {
 		if g.w.kind == "disk" && g.r.chance(3) {
 			g.emit(Line{Op: "restart", Args: [][2]string{{"hlc", "0"}, {"mode", pick(g.r, []string{"reopen", "open"})}}})
 			g.stats["op:restart"]++
+			second()
 		}
 	}
 	for _, c := range g.colls {
@@ -963,9 +984,9 @@ func (g *Gen) collsProgram(n int) {
 	g.colls = []string{"c0", "c1", "c2"}
 	g.keys = []string{"k0", "k1", "k2"}
 	g.profile = "nometa"
-	exists := map[string]bool{"c0": true, "c1": true, "c2": true, "c3": false}
-	usable := map[string]bool{"c0": true, "c1": true, "c2": true, "c3": false} // the harness holds an object for it
-	all := []string{"c0", "c1", "c2", "c3"}
+	exists := map[string]bool{"c0": true, "c1": true, "c2": true, "c3": false, "c5": false}
+	usable := map[string]bool{"c0": true, "c1": true, "c2": true, "c3": false, "c5": false} // the harness holds an object for it
+	all := []string{"c0", "c1", "c2", "c3", "c5"} // c5 is s1.A: c1's name (s1.a) in another case
 	rbAll := func() {
 		for _, c := range all {
 			if usable[c] {
@@ -996,7 +1017,7 @@ func (g *Gen) collsProgram(n int) {
 				g.emit(Line{Op: "lastcas", Pos: []string{c}})
 			}
 		case 1:
-			c := pick(g.r, []string{"c1", "c2", "c3"})
+			c := pick(g.r, []string{"c1", "c2", "c3", "c5"})
 			if !usable[c] {
 				continue
 			}
@@ -1005,7 +1026,7 @@ func (g *Gen) collsProgram(n int) {
 			g.stats["op:dropcoll"]++
 			rbAll()
 		case 2:
-			c := pick(g.r, []string{"c1", "c2", "c3"})
+			c := pick(g.r, []string{"c1", "c2", "c3", "c5", "c5"})
 			g.emit(Line{Op: "mkcoll", Pos: []string{c}, Args: [][2]string{{"via", "h0"}}})
 			exists[c], usable[c] = true, true
 			g.stats["op:mkcoll"]++
@@ -1023,7 +1044,7 @@ func (g *Gen) collsProgram(n int) {
 			g.stats["op:restart"]++
 			exists["c1"], exists["c2"] = true, true
 			usable["c1"], usable["c2"] = true, true
-			usable["c3"] = false // the object belongs to the closed handle; the collection (if it exists) is reopened by mkcoll
+			usable["c3"], usable["c5"] = false, false // the objects belong to the closed handle; the collections (if they exist) are reopened by mkcoll
 			rbAll()
 		}
 	}
@@ -1153,7 +1174,7 @@ func (g *Gen) lifeProgram(n int) {
 				}
 			}
 		case 1:
-			c := pick(g.r, []string{"c0", "c1", "c2"})
+			c := pick(g.r, []string{"c0", "c1", "c2", "c4"}) // c4 = s2.a: the name of c1 (s1.a) in another scope
 			g.emit(Line{Op: "mkcoll", Pos: []string{c}, Args: [][2]string{{"via", h}}})
 			collOpen[h][c] = true
 		case 2:
@@ -1190,7 +1211,7 @@ func (g *Gen) lifeProgram(n int) {
 				}
 			}
 		case 4:
-			c := pick(g.r, []string{"c1", "c2"})
+			c := pick(g.r, []string{"c1", "c2", "c4"})
 			g.emit(Line{Op: "dropcoll", Pos: []string{c}, Args: [][2]string{{"via", h}}})
 			for _, m := range collOpen {
 				m[c] = false
